@@ -456,7 +456,7 @@ impl<'a> CompilerState<'a> {
                     }
                     Rule::quoted_string => {
                         // Create a temp variable pointing to this quoted_string
-                        let v = self.compile_quoted_string(primary);
+                        let v = self.compile_quoted_string(primary)?;
                         let mut l = literal_counter.lock().unwrap();
                         let name = format!("cctmp{}", l);
                         *l += 1;
@@ -620,7 +620,7 @@ impl<'a> CompilerState<'a> {
                     }
                     Rule::quoted_string => {
                         // Create a temp variable pointing to this quoted_string
-                        let v = self.compile_quoted_string(primary);
+                        let v = self.compile_quoted_string(primary)?;
                         let mut l = literal_counter.lock().unwrap();
                         let name = format!("cctmp{}", l);
                         *l += 1;
@@ -892,7 +892,7 @@ impl<'a> CompilerState<'a> {
             }
             Rule::asm_statement => {
                 let mut px = pair.into_inner();
-                let mut s = self.compile_quoted_string(px.next().unwrap());
+                let mut s = self.compile_quoted_string(px.next().unwrap())?;
                 let size = if let Some(x) = px.next() {
                     Some(self.parse_calc(x.into_inner())? as u32)
                 } else {
@@ -1578,7 +1578,7 @@ impl<'a> CompilerState<'a> {
                                                         v.push((s, offset));
                                                     }
                                                     Rule::quoted_string => {
-                                                        let k = self.compile_quoted_string(pxx);
+                                                        let k = self.compile_quoted_string(pxx)?;
                                                         let name = format!(
                                                             "cctmp{}",
                                                             self.literal_counter
@@ -1644,7 +1644,7 @@ impl<'a> CompilerState<'a> {
                                                 start,
                                             ));
                                         }
-                                        let string = self.compile_quoted_string(px);
+                                        let string = self.compile_quoted_string(px)?;
                                         let vb = string.as_bytes();
                                         let mut v = Vec::<VariableValue>::new();
                                         for c in vb.iter() {
@@ -2268,15 +2268,22 @@ impl<'a> CompilerState<'a> {
         parse_int(p).map_err(|msg| self.syntax_error(&msg, start))
     }
 
-    fn compile_quoted_string(&self, p: Pair<Rule>) -> String {
+    fn compile_quoted_string(&self, p: Pair<Rule>) -> Result<String, Error> {
         let mut v = String::new();
+        let start = p.as_span().start();
         let it = p.into_inner();
         for i in it {
-            let j = i.as_str().parse::<usize>().unwrap();
-            v.push_str(&compile_quoted_string_ex(&self.context.literal_strings[j]));
+            // A literal marker typed by hand (@n@) may designate no literal at all
+            let s = i
+                .as_str()
+                .parse::<usize>()
+                .ok()
+                .and_then(|j| self.context.literal_strings.get(j))
+                .ok_or_else(|| self.syntax_error("Unknown string literal", start))?;
+            v.push_str(&compile_quoted_string_ex(s));
         }
         v.push(char::from_u32(0).unwrap());
-        v
+        Ok(v)
     }
 }
 
